@@ -631,6 +631,41 @@ pub fn c07_literal() {
         check!(got == Ok(Value::List(Arc::new((0..n as i64).map(|j| Value::Int(100 + j)).collect()))), "list literal holds the element values in order");
     }
 }
+/// C13 literal half: an int / uint literal in either radix with an optional sign evaluates to the number
+/// it denotes, or is a compile error when that number does not fit.
+pub fn c13_literal() {
+    let (method, neg, hex): (u8, u8, u8) = (any(), any(), any());
+    let mag: u128 = any();
+    crate::sym::assume(method <= 1 && neg <= 1 && hex <= 1 && !(method == 1 && neg == 1));
+    let digits = if hex == 1 { format!("0x{:x}", mag) } else { format!("{}", mag) };
+    let src = format!("{}{}{}", if neg == 1 { "-" } else { "" }, digits, if method == 1 { "u" } else { "" });
+    let got = Program::compile(&src).map(|p| p.execute(&Context::default()));
+    let denoted: i128 = if mag > (1u128 << 100) { i128::MAX } else if neg == 1 { -(mag as i128) } else { mag as i128 };
+    if method == 0 {
+        match i64::try_from(denoted) {
+            Ok(n) => check!(matches!(&got, Ok(Ok(Value::Int(v))) if *v == n), "an int literal within range evaluates to the number it denotes"),
+            Err(_) => check!(got.is_err(), "an int literal out of range is a compile error"),
+        }
+    } else {
+        match u64::try_from(denoted) {
+            Ok(n) => check!(matches!(&got, Ok(Ok(Value::UInt(v))) if *v == n), "a uint literal within range evaluates to the number it denotes"),
+            Err(_) => check!(got.is_err(), "a uint literal out of range is a compile error"),
+        }
+    }
+}
+/// C13 literal half, doubles: a fixed list of texts.
+pub fn c13_double_literal() {
+    let code: u8 = any();
+    let cases: [(&str, Option<f64>); 8] = [("1.5", Some(1.5)), ("-0.0", Some(-0.0)), ("1e308", Some(1e308)), ("1e309", None), ("1e400", None),
+        ("4.9e-324", Some(4.9e-324)), ("1e-400", Some(0.0)), ("-1e400", None)];
+    crate::sym::assume((code as usize) < cases.len());
+    let (src, want) = cases[code as usize];
+    let got = Program::compile(src).map(|p| p.execute(&Context::default()));
+    match want {
+        Some(d) => check!(matches!(&got, Ok(Ok(Value::Float(v))) if v.to_bits() == d.to_bits()), "a finite double literal evaluates to its value"),
+        None => check!(got.is_err(), "a double literal out of range is a compile error"),
+    }
+}
 /// C10 native replay: the five macros over a list of 0-3 booleans with a logging predicate.
 pub fn c10_macro() {
     let (mac, n, bits): (u8, u8, u8) = (any(), any(), any());
@@ -978,6 +1013,8 @@ crate::replay_only! {
     #[kani::unwind(2)] c11_unsupported_nodes: "off", "same body", "same";
     #[kani::unwind(2)] c10_unsupported_nodes: "off", "same body", "same";
     #[kani::unwind(2)] c19_unsupported_nodes: "off", "same body", "same";
+    #[kani::unwind(2)] c13_literal: "off", "int / uint literals of every sign, radix and magnitude through Program::compile + execute", "text built from the vector";
+    #[kani::unwind(2)] c13_double_literal: "off", "eight double literal texts", "fixed list";
     #[kani::unwind(2)] c14_concat: "off", "Value + Value on lists / strings with controlled Arc sharing", "lengths 0-3, reference counts 1-4, x + x";
     #[kani::unwind(2)] c02_concat: "off", "same body", "same";
     #[kani::unwind(2)] c14_select: "off", "x.field / has(x.field) through Program::compile + execute, against the map's contents and the other ways of asking", "six operand kinds, eight maps, function declared or not";
